@@ -10,7 +10,9 @@ package main
 
 import (
 	"fmt"
+	"go/ast"
 	"go/token"
+	"go/types"
 	"math"
 	"strings"
 )
@@ -498,6 +500,32 @@ func c08Support(p *Prog, r *Report, x *Exec) {
 	if !capE {
 		r.Ob("cap:ETREL", "-", false, "the evapotranspiration ratio handed to the crop model is not capped at 1")
 	}
+	// the evaporation and transpiration shares are taken from the potential ET after its cap: nothing stores the
+	// potential ET once a share has been derived from it (a cap that comes later bounds the reported potential ET
+	// but not the demand the actual ET is computed from)
+	if ex := walked(p, "hermes.Evatra"); ex != nil {
+		late := ""
+		nShares := 0
+		for _, e := range ex.Events {
+			if e.Kind != "assign" || e.Local == nil || (e.Local.Name() != "EVMAX" && e.Local.Name() != "TRAMAX") {
+				continue
+			}
+			as, ok := e.Stmt.(*ast.AssignStmt)
+			if !ok || len(as.Rhs) != 1 || !strings.Contains(types.ExprString(as.Rhs[0]), "VERDU[") {
+				continue
+			}
+			nShares++
+			for _, w := range ex.Events {
+				if w.Kind == "assign" && w.Root == "VERDU" && w.Seq > e.Seq && len(w.Idx) == 1 {
+					// only stores that can follow on the same path: the writer's guards do not contradict the share's
+					if satisfiable(append(append([]*Cond{}, e.Guards...), w.Guards...)) {
+						late += fmt.Sprintf("%s derived at %s, potential ET stored again at %s; ", e.Local.Name(), p.Pos(e.Pos), p.Pos(w.Pos))
+					}
+				}
+			}
+		}
+		r.Ob("shares-after-cap", "-", late == "" && nShares >= 2, fmt.Sprintf("%d derivations of the evaporation/transpiration share from the potential ET; stores of the potential ET after a derivation: %s", nShares, orStr(late, "none")))
+	}
 	r.Note("TRREL = TPAKT/TRAMAX has no cap in the code; it is ≤ 1 mathematically (redistribution does not increase the total) but that sum identity over a data-dependent loop is not decided here")
 }
 
@@ -546,6 +574,18 @@ func c08Clip(p *Prog, r *Report, rule string) {
 		if !(why == "" && unit && lo.IsZero() && stripVersions(hi).Equal(cellP("GlobalVarsMain.N").Sub(PInt(1)))) {
 			ok = false
 			det += "; not for every layer 0..N−1"
+		}
+		// no condition singles out a layer: inside the sweep the clip depends on the bound test and on the
+		// "already below the wilting point" test only
+		for _, g := range flattenGuards(inLoopGuards(capE, L)) {
+			if g.Kind == "cmp" && g.P.MentionsRoot("GlobalVarsMain.TP") && (g.Op == token.GTR || g.Op == token.LSS || g.Op == token.GEQ || g.Op == token.LEQ) {
+				continue
+			}
+			if g.Kind == "cmp" && !g.P.MentionsRoot("GlobalVarsMain.TP") && g.P.MentionsRoot("GlobalVarsMain.WG") && g.P.MentionsRoot("GlobalVarsMain.WMIN") {
+				continue
+			}
+			ok = false
+			det += "; the clip is additionally conditional on " + clip(g.Key(), 80) + " (a layer exempted from the limit can be emptied below the wilting point)"
 		}
 		// the withdrawal follows in the same iteration
 		wd := false
